@@ -608,6 +608,23 @@ static void cap_check(void) {
                      CAP, ci->has_sse41, ci->has_sse42, ci->has_avx, ci->has_avx2, ci->has_avx512f, ci->has_avx512bw, ci->has_avx512vl, ci->has_avx512vbmi);
 }
 
+/* ---- in-place dictionary gather: output == indices for the 4-byte gathers (the scalar definition output[i] = dict[indices[i]] reads each index before it writes that slot and never looks back) */
+static void inplace_gather(int dispatch) {
+    mc_stage("gather.in-place.output-aliases-indices");
+    typedef void (*g32)(const int32_t*, const uint32_t*, int64_t, int32_t*);
+    static const struct { const char* n; g32 f; int disp; } G[] = { { "carquet_sse_gather_i32", carquet_sse_gather_i32, 0 }, { "carquet_avx2_gather_i32", carquet_avx2_gather_i32, 0 }, { "carquet_avx512_gather_i32", carquet_avx512_gather_i32, 0 },
+        { "carquet_sse_gather_float", (g32)carquet_sse_gather_float, 0 }, { "carquet_avx2_gather_float", (g32)carquet_avx2_gather_float, 0 }, { "carquet_avx512_gather_float", (g32)carquet_avx512_gather_float, 0 },
+        { "carquet_dispatch_gather_i32", carquet_dispatch_gather_i32, 1 }, { "carquet_dispatch_gather_float", (g32)carquet_dispatch_gather_float, 1 } };
+    for (int k = 0; k < 8; k++) { if (G[k].disp != dispatch) continue; for (int count = 0; count <= 130; count++) for (int pat = 0; pat < 2; pat++) {
+        if (!mc_next()) continue;
+        mc_desc("%s;n=%d;in-place;pat=%d", G[k].n, count, pat); mc_feature("gather-in-place"); mc_case_key(mc_mix(0x1a9, ((uint64_t)k << 16) | ((uint64_t)count << 1) | (uint64_t)pat)); if (count) mc_nontrivial();
+        int32_t dict[64]; for (int i = 0; i < 64; i++) dict[i] = pat ? (i * 37 + 11) % 64 : 1000 + i * 3; uint32_t* buf = (uint32_t*)mc_arena_tail(&AR[0], (size_t)(count ? count : 1) * 4); int32_t want[140];
+        for (int i = 0; i < count; i++) { buf[i] = (uint32_t)((i * 7 + 9) % 64); want[i] = dict[buf[i]]; }
+        G[k].f(dict, buf, count, (int32_t*)buf);
+        for (int i = 0; i < count; i++) if ((int32_t)buf[i] != want[i]) { char key[96]; snprintf(key, sizeof key, "%s.in-place.values", G[k].n + 8); mc_fail(key, "count %d, output == indices: output[%d] = %d, the scalar definition gives %d", count, i, (int32_t)buf[i], want[i]); break; }
+    } }
+}
+
 /* ---- first use: each dispatch wrapper as the FIRST library call of a fresh process, with and without carquet_init() before it (the table is built lazily by whichever
  * wrapper runs first); the harness re-executes itself (`simd --firstuse <wrapper> <init>`), which makes exactly that one call and prints a digest of its output */
 static int firstuse_child(int w, int init) {
@@ -722,6 +739,7 @@ static void enumerate(void) {
             mc_harness_error("host CPU cannot execute all ISA variants (needs SSE4.2, AVX2, BMI2, AVX-512F/BW/VL)");
     }
     inventory();
+    inplace_gather(DISPATCH);
     for (int ki = 0; ki < NKERN; ki++)
         if ((strcmp(KERNELS[ki].isa, "dispatch") == 0) == (DISPATCH != 0)) run_kernel(ki);
 }
